@@ -46,7 +46,7 @@ def plan(tier):
 
 def describe(tier):
     return {
-        'rule': 'deep: encode/decode of chains of 1200/3000 gates in four format patterns, both storage orders; bytes(writer) read after every single write (an observation must not change what is written next); circ: every circuit of F(n,k,FMT) (14 format types at format arities - constants carry two operands; n>=0) and F(n,k,EXT) (3/4-ary gates, '
+        'rule': 'dictionary entries whose value / key is 255..65535 bytes long (around 2^8, 2^15, 2^16-1); zero-width numbers at byte boundaries and at the end of the data; deep: encode/decode of chains of 1200/3000 gates in four format patterns, both storage orders; bytes(writer) read after every single write (an observation must not change what is written next); circ: every circuit of F(n,k,FMT) (14 format types at format arities - constants carry two operands; n>=0) and F(n,k,EXT) (3/4-ary gates, '
         'L*/R* types, constants with 0/1 operands) x outputs (all sequences of length 0..2) x object/storage variants (creation; copy.deepcopy; pickle round trip; declared input order reversed / rotated; every '
         'order reachable by renaming each gate away and back) -> encode/decode; structural '
         'comparison up to renaming + truth tables. bits: every bit string of length<=12, every write_number(v,len) '
@@ -273,6 +273,15 @@ def check_bits(acc):
             for v1 in range(1 << l1):
                 for v2 in range(1 << l2):
                     yield [(v1, l1), (v2, l2)]
+        # zero-width pieces exactly at a byte boundary / at the end of the data
+        for v in range(256):
+            yield [(v, 8), (0, 0)]
+            yield [(0, 0), (v, 8), (0, 0), (0, 0)]
+        for v in (0, 1, 0xA5C3, 0xFFFF):
+            yield [(v, 16), (0, 0)]
+            yield [(v & 0xFF, 8), (0, 0), (v >> 8, 8), (0, 0)]
+        yield [(0, 0)]
+        yield [(0, 0), (0, 0)]
         for l1, l2, l3 in itertools.product(range(0, 4), repeat=3):
             for v1 in range(1 << l1):
                 for v2 in range(1 << l2):
@@ -292,7 +301,11 @@ def check_bits(acc):
             acc.violation('bit_io/write_number-raises-in-range', case, repr(e))
             continue
         r = BitReader(bytes(w))
-        back = [r.read_number(ln) for _, ln in seq]
+        try:
+            back = [r.read_number(ln) for _, ln in seq]
+        except Exception as e:  # noqa: BLE001
+            acc.violation(f'bit_io/read_number-raises-{type(e).__name__}', case, repr(e))
+            continue
         if back != [v for v, _ in seq]:
             acc.violation('bit_io/number-roundtrip', case, str(back))
     acc.outcome('bits', 'numbers')
@@ -412,6 +425,39 @@ def check_dict(acc):
             except Exception as e:  # noqa: BLE001
                 acc.violation('binary_dict/trailing-wrong-exception', {**case, 'extra': list(extra)}, repr(e), feats)
         acc.outcome('dict', (len(d), len(data)))
+    # long values / keys around the powers of two below the 2-byte length limit
+    for ln in (255, 256, 257, 32767, 32768, 32769, 40000, 65535):
+        for what in ('value', 'ascii-key', 'utf8-key'):
+            if what == 'value':
+                d = {'k': bytes((i * 7 + 3) % 256 for i in range(ln))}
+            elif what == 'ascii-key':
+                d = {'k' * ln: b'v'}
+            else:
+                d = {'€' * (ln // 3) + 'a' * (ln % 3): b'v'}
+            acc.states += 1
+            acc.traces += 1
+            acc.transitions += 2
+            case = {'dict_entry': what, 'encoded_length': ln}
+            s_ = io.BytesIO()
+            try:
+                write_binary_dict(d, s_)
+                data = s_.getvalue()
+                back = read_binary_dict(io.BytesIO(data))
+            except Exception as e:  # noqa: BLE001
+                acc.violation(f'binary_dict/long-entry-raises-{type(e).__name__}', case, repr(e)[:200])
+                continue
+            if back != d:
+                acc.violation('binary_dict/roundtrip-differs', case, f'{len(next(iter(back.values()), b""))} value bytes')
+                continue
+            for cut in (len(data) - 1, len(data) // 2, 3):
+                try:
+                    read_binary_dict(io.BytesIO(data[:cut]))
+                    acc.violation('binary_dict/truncated-accepted', {**case, 'cut': cut}, '')
+                except BinaryDictIOError:
+                    pass
+                except Exception as e:  # noqa: BLE001
+                    acc.violation('binary_dict/truncated-wrong-exception', {**case, 'cut': cut}, repr(e)[:200])
+            acc.outcome('dict', ('long', what, ln))
     acc.sample({'dict': [['é', [0]], ['ab', []]]})
 
 
@@ -515,6 +561,8 @@ def replay(case, acc):
     if 'gates' in case:
         n, gates, outs = space.spec_from_json(case)
         return check_circuit(n, gates, acc, None, only={'outputs': list(outs), 'order': case.get('order', 'creation')})
+    if 'dict_entry' in case:
+        return check_dict(acc)
     if 'dict' in case:
         return check_dict(acc)
     if 'history' in case:
